@@ -638,6 +638,11 @@ def plan(tier):
             new("joint", bodies=[x, y], ri=0, p2=[0, 0, 0], kap=ident, m=1.0, batch="joint")
             if not quick or pi < 2:
                 new("joint", bodies=[x, y], ri=0, p2=[0, 0, 0], kap=ident, m=1.0, batch="single", sub="core")
+            # the same pair as bodies of a few NANOMETRES and of kilometres (a length unit is not a tolerance: the meshes stay different)
+            if not quick or pi < 3:
+                new("joint", bodies=[x, y], ri=0, p2=[0, 0, 0], kap={"id": False, "dec": -9, "salt": f"joint-nm:{x}:{y}"}, m=1.0, batch="joint")
+            if not quick:
+                new("joint", bodies=[x, y], ri=0, p2=[0, 0, 0], kap={"id": False, "dec": 3, "salt": f"joint-km:{x}:{y}"}, m=1.0, batch="joint")
             if not quick:
                 ri = (7 * pi + 5) % 24
                 p2 = [r.randint(-4, 4) for _ in range(3)]
